@@ -20,21 +20,25 @@ import (
 
 // C07Plan: a sync scenario with one misbehaving node.
 type C07Plan struct {
-	Engine      string          `json:"engine"`
-	HonestLen   int             `json:"honestLen"`
-	Checkpoints []int           `json:"checkpoints"`
-	DisableCP   bool            `json:"disableCP"`
-	Kind        string          `json:"kind"`   // forbidden | checkpoint
-	ForkAt      int             `json:"forkAt"` // the bad chain leaves the honest chain after this height
-	BadLen      int             `json:"badLen"` // length of the bad branch
-	Offset      int             `json:"offset"` // forbidden: index of the forbidden header within the bad branch
-	BadCap      int             `json:"badCap"` // reply cap of the bad node
-	BadSpec     simnet.NodeSpec `json:"badSpec"`
-	Honest      int             `json:"honest"` // number of honest nodes (1-2)
-	HonestCap   int             `json:"honestCap"`
-	BadFirst    bool            `json:"badFirst"` // the bad node is the only node until its offence was observed (it is "chosen first")
-	FinalAnn    bool            `json:"finalAnn"` // an honest node announces a new block at the end
-	BanMs       int             `json:"banMs"`
+	Engine      string `json:"engine"`
+	HonestLen   int    `json:"honestLen"`
+	Checkpoints []int  `json:"checkpoints"`
+	DisableCP   bool   `json:"disableCP"`
+	Kind        string `json:"kind"`   // forbidden | checkpoint
+	ForkAt      int    `json:"forkAt"` // the bad chain leaves the honest chain after this height
+	BadLen      int    `json:"badLen"` // length of the bad branch
+	Offset      int    `json:"offset"` // forbidden: index of the forbidden header within the bad branch
+	// Delivery (forbidden kind): "" = in order; "skipParent" = the bad node leaves out the header just before the forbidden
+	// one in its reply, "beforeParent" = it sends the forbidden header ahead of its parent: either way the forbidden header
+	// arrives while its parent is unknown to the service
+	Delivery  string          `json:"delivery,omitempty"`
+	BadCap    int             `json:"badCap"` // reply cap of the bad node
+	BadSpec   simnet.NodeSpec `json:"badSpec"`
+	Honest    int             `json:"honest"` // number of honest nodes (1-2)
+	HonestCap int             `json:"honestCap"`
+	BadFirst  bool            `json:"badFirst"` // the bad node is the only node until its offence was observed (it is "chosen first")
+	FinalAnn  bool            `json:"finalAnn"` // an honest node announces a new block at the end
+	BanMs     int             `json:"banMs"`
 	// Strict: after a checkpoint offence, demand convergence on the honest chain and that no contradicting header stays
 	// on the longest chain. The search pass sets it only where the open finding
 	// C07-checkpoint-contradiction-stored-before-verified does not apply (legacy engine, single checkpoint, final announcement).
@@ -147,6 +151,24 @@ func runC07Once(p *C07Plan, long bool) (*stats.Case, error) {
 		return nil, fmt.Errorf("infra: %w", err)
 	}
 	badNode.Offending = offending
+	if p.Kind == "forbidden" && p.Delivery != "" {
+		fh := forbidden.Hash
+		badNode.Insert = func(reply []*wire.BlockHeader, _ int, _ int) ([]*wire.BlockHeader, bool) {
+			for i, h := range reply {
+				if i >= 1 && h.BlockHash() == fh {
+					out := append([]*wire.BlockHeader{}, reply...)
+					if p.Delivery == "skipParent" {
+						out = append(out[:i-1], out[i:]...)
+					} else {
+						out[i-1], out[i] = out[i], out[i-1]
+					}
+					stats.Count("forbidden_delivered_before_its_parent", 1)
+					return out, true
+				}
+			}
+			return reply, false
+		}
+	}
 	nodes = append(nodes, badNode)
 
 	env := simnet.Install(nodes, cps)
@@ -375,6 +397,7 @@ func genC07(t *rapid.T) *C07Plan {
 		if p.Engine == "legacy" {
 			p.DisableCP = rapid.IntRange(0, 4).Draw(t, "dcp") == 0
 		}
+		p.Delivery = rapid.SampledFrom([]string{"", "", "skipParent", "beforeParent"}).Draw(t, "delivery")
 	case "checkpoint":
 		c := rapid.IntRange(3, p.HonestLen-2).Draw(t, "cp")
 		p.Checkpoints = []int{c}
